@@ -51,9 +51,9 @@ claim("C07",
       "alignment centres (count v/7+2, first 6, last 4v+10, even equal steps) and the encoder's padded copy of them; all 32 format words and 34 version words equal the BCH remainder with "
       "generator 0x537 / 0x1f25 (mask 0x5412); the encoder's block-size arithmetic reproduces every table row. Function contracts: the eight decoder mask predicates and "
       "MaskUtil_getDataMaskBit are proved equal to the ISO mask formulas; calculateBCHCode is proved to be the GF(2) remainder (the same spec function as the table lemmas) and makeTypeInfoBits / makeVersionInfoBits to emit "
-      "exactly (level, mask).BCH xor 101010000010010 and version.BCH, most significant bit first; getNumDataBytesAndNumECBytesForBlockID is proved against its arithmetic specification; embedDataBits is proved (call-site assertion on every module write) to write into each module it fills either the data bit just consumed or, once the data is used up, a remainder bit 0, in both cases XORed with the ISO mask condition of that module (remainder bits are masked too); embedTypeInfo is proved (call-site assertions) to place format bit i (i = 0 least significant) at column 8 rows 0..5,7,8 / row 8 columns 7,5..0 and, as second copy, at row 8 from the right edge for i < 8 and column 8 in the bottom seven rows for i >= 8 (figure 25). "
+      "exactly (level, mask).BCH xor 101010000010010 and version.BCH, most significant bit first; getNumDataBytesAndNumECBytesForBlockID is proved against its arithmetic specification; embedDataBits is proved (call-site assertion on every module write) to write into each module it fills either the data bit just consumed or, once the data is used up, a remainder bit 0, in both cases XORed with the ISO mask condition of that module (remainder bits are masked too); embedTypeInfo is proved (call-site assertions) to place format bit i (i = 0 least significant) at column 8 rows 0..5,7,8 / row 8 columns 7,5..0 and, as second copy, at row 8 from the right edge for i < 8 and column 8 in the bottom seven rows for i >= 8 (figure 25). maybeEmbedVersionInfo is proved (loop invariants and call-site assertions) to place version bit 3i+j (0 = least significant) at column i, row height-11+j and at the transposed position (figure 26). "
       "Not decided: the zigzag order in which embedDataBits visits modules; EC block counts against the standard's table entry by entry (no independent copy; the structural invariants pin every entry up to compensating errors), "
-      "function-pattern embedding (embedBasicPatterns), the coordinates of the version information, and matrix_lib == matrix_ref for whole symbols.",
+      "function-pattern embedding (embedBasicPatterns), and matrix_lib == matrix_ref for whole symbols.",
       "tables dumped from the compiled package on every run; products of symbolic integers uninterpreted in function VCs (mask 5-7 claims are conditional on i*j >= 0).")
 claim("C01",
       "Mirror pairs of the QR codec, each proved for all inputs (the composition through placement, interleaving and Reed-Solomon is not): "
